@@ -33,7 +33,7 @@ func encBufRecv(c *Ctx, v ssa.Value) bool {
 		return false
 	}
 	n, _ := types.Unalias(deref(fa.X.Type())).(*types.Named)
-	return n != nil && n.Obj().Name() == "jsonEncoder" && n.Obj().Pkg().Path() == CorePath
+	return n != nil && FNm(n.Obj()) == "jsonEncoder" && n.Obj().Pkg().Path() == CorePath
 }
 
 type bufCall struct {
@@ -57,7 +57,7 @@ func encBufCalls(c *Ctx, fn *ssa.Function) []bufCall {
 		if len(args) == 0 || !encBufRecv(c, args[0]) {
 			continue
 		}
-		out = append(out, bufCall{fn, call, f.Name()})
+		out = append(out, bufCall{fn, call, FNm(f)})
 	}
 	return out
 }
@@ -200,7 +200,7 @@ func c1Taint(c *Ctx, rule string) {
 						if more {
 							return false
 						}
-						if f.Name() == "EncodeEntry" {
+						if FNm(f) == "EncodeEntry" {
 							return true
 						}
 						if !Eligible(f) {
@@ -250,12 +250,12 @@ func c1Taint(c *Ctx, rule string) {
 		}
 		ok := false
 		for _, cl := range Calls(fn) {
-			if f := CalleeFunc(cl); f != nil && f.Name() == "safeAppendStringLike" {
+			if f := CalleeFunc(cl); f != nil && FNm(f) == "safeAppendStringLike" {
 				a := cl.Common().Args
 				ok = encBufRecv(c, a[2]) && a[3] == ssa.Value(fn.Params[1])
 			}
 		}
-		c.Check(ok, rule, fn.String(), "escapes-into-own-buffer", fn.Pos(), "%s escapes its argument into the encoder's own buffer", m)
+		c.Check(ok, rule, FStr(fn), "escapes-into-own-buffer", fn.Pos(), "%s escapes its argument into the encoder's own buffer", m)
 	}
 	// reflected bytes: encodeReflected returns the reflect buffer / null literal
 	er := c.Method(CorePath, "jsonEncoder", "encodeReflected")
@@ -322,11 +322,11 @@ func c1Taint(c *Ctx, rule string) {
 				bad = append(bad, sq)
 			}
 		}
-		c.Check(!trunc && len(seqs) >= 2 && len(bad) == 0, rule, er.String(), "reflected-bytes", er.Pos(), "on every path reflected values are the JSON encoder's own output (the bytes of its reflect buffer) or the null literal: %v", bad)
+		c.Check(!trunc && len(seqs) >= 2 && len(bad) == 0, rule, FStr(er), "reflected-bytes", er.Pos(), "on every path reflected values are the JSON encoder's own output (the bytes of its reflect buffer) or the null literal: %v", bad)
 		g := c.GlobalAccesses(CorePath, "nullLiteralBytes")
 		writes := 0
 		for _, a := range g {
-			if a.Write && a.Fn.Name() != "init" {
+			if a.Write && FNm(a.Fn) != "init" {
 				writes++
 			}
 		}
@@ -350,7 +350,7 @@ func constWrite(c *Ctx, in ssa.Instruction) (alts [][]byte, ok bool) {
 	if f == nil || f.Pkg() == nil || f.Pkg().Path() != "go.uber.org/zap/buffer" {
 		return nil, false
 	}
-	switch f.Name() {
+	switch FNm(f) {
 	case "AppendByte", "AppendString", "WriteByte", "WriteString":
 	default:
 		return nil, false
@@ -738,7 +738,7 @@ func c1Escaper(c *Ctx, rule string) {
 	if !c.Anchor(rule, "zapcore.safeAppendStringLike", fn != nil) {
 		return
 	}
-	name := fn.String()
+	name := FStr(fn)
 	var header *ssa.BasicBlock
 	for _, b := range fn.Blocks {
 		if LoopHeader(b) == b {
@@ -791,18 +791,18 @@ func c1Escaper(c *Ctx, rule string) {
 			var d0, d1 string
 			Bound(func() { d0, d1 = Desc(a[0]), Desc(a[1]) })
 			if d0 != bufName {
-				return "?" + f.Name()
+				return "?" + FNm(f)
 			}
 			if b, ok := constBytes(a[1]); ok {
-				return f.Name() + "(" + string(b) + ")"
+				return FNm(f) + "(" + string(b) + ")"
 			}
 			// a byte that is evident for this input byte (e.g. looked up in a constant escape table)
-			if curByteEval != nil && (f.Name() == "AppendByte" || f.Name() == "WriteByte") && !strings.Contains(d1, `"0123456789abcdef"`) {
+			if curByteEval != nil && (FNm(f) == "AppendByte" || FNm(f) == "WriteByte") && !strings.Contains(d1, `"0123456789abcdef"`) {
 				if k, ok := curByteEval(a[1]); ok && k >= 0x20 && k < 0x7f {
-					return f.Name() + "(" + string(rune(k)) + ")"
+					return FNm(f) + "(" + string(rune(k)) + ")"
 				}
 			}
-			return f.Name() + "(" + d1 + ")"
+			return FNm(f) + "(" + d1 + ")"
 		}
 		return ""
 	}
@@ -929,10 +929,10 @@ func c1Pairing(c *Ctx, rule string) {
 	nOpen := 0
 	for _, fn := range coreFuncs(c) {
 		rn := RecvNamed(fn)
-		if rn == nil || rn.Obj().Name() != "jsonEncoder" {
+		if rn == nil || FNm(rn.Obj()) != "jsonEncoder" {
 			continue
 		}
-		name := fn.String()
+		name := FStr(fn)
 		var inString []ssa.Instruction
 		AllInstrs(fn, func(in ssa.Instruction) {
 			alts, ok := constWrite(c, in)
@@ -963,7 +963,7 @@ func c1Pairing(c *Ctx, rule string) {
 			}
 			if cl, isCall := in.(*ssa.Call); isCall {
 				if f := CalleeFunc(cl); f != nil {
-					switch f.Name() {
+					switch FNm(f) {
 					case "safeAddString", "safeAddByteString":
 						inString = append(inString, in)
 					}
@@ -1009,12 +1009,12 @@ func c1Pairing(c *Ctx, rule string) {
 					return IVal{}, false
 				}
 				switch {
-				case (f.Name() == "AppendByte" || f.Name() == "WriteByte") && len(args) == 2 && args[1].K == ivInt:
+				case (FNm(f) == "AppendByte" || FNm(f) == "WriteByte") && len(args) == 2 && args[1].K == ivInt:
 					out = append(out, byte(args[1].I))
-				case (f.Name() == "AppendString" || f.Name() == "WriteString") && len(args) == 2 && args[1].K == ivStr:
+				case (FNm(f) == "AppendString" || FNm(f) == "WriteString") && len(args) == 2 && args[1].K == ivStr:
 					out = append(out, args[1].S...)
 				default:
-					weird = f.Name()
+					weird = FNm(f)
 				}
 				return IVal{K: ivTuple}, true
 			}
@@ -1040,7 +1040,7 @@ func c1Pairing(c *Ctx, rule string) {
 				break
 			}
 		}
-		c.Check(bad == "" && je != nil, rule, cn.String(), "closes-exactly-open", cn.Pos(), "evaluated for 0..6 open namespaces: one '}' per open namespace is written and the counter ends at zero %s", bad)
+		c.Check(bad == "" && je != nil, rule, FStr(cn), "closes-exactly-open", cn.Pos(), "evaluated for 0..6 open namespaces: one '}' per open namespace is written and the counter ends at zero %s", bad)
 	}
 	// EncodeEntry tail
 	ee := c.Method(CorePath, "jsonEncoder", "EncodeEntry")
@@ -1051,7 +1051,7 @@ func c1Pairing(c *Ctx, rule string) {
 		funcs := coreFuncs(c)
 		frame := map[*ssa.Function]bool{}
 		writes := map[*ssa.Function]bool{}
-		isLeaf := func(f *ssa.Function) bool { return f.Name() == "addFields" || f.Name() == "closeOpenNamespaces" }
+		isLeaf := func(f *ssa.Function) bool { return FNm(f) == "addFields" || FNm(f) == "closeOpenNamespaces" }
 		for _, f := range funcs {
 			for _, o := range encBufCalls(c, f) {
 				if isMutatingBufMethod(o.m) {
@@ -1085,13 +1085,13 @@ func c1Pairing(c *Ctx, rule string) {
 					return ""
 				}
 				if f := CalleeFunc(cl); f != nil {
-					switch f.Name() {
+					switch FNm(f) {
 					case "addFields":
 						return "fields"
 					case "closeOpenNamespaces":
 						return "closeNS"
 					}
-					if f.Pkg() != nil && f.Pkg().Path() == "go.uber.org/zap/buffer" && isMutatingBufMethod(f.Name()) {
+					if f.Pkg() != nil && f.Pkg().Path() == "go.uber.org/zap/buffer" && isMutatingBufMethod(FNm(f)) {
 						if args := Args(cl); len(args) > 0 && encBufRecv(c, args[0]) {
 							if b, ok := appendByteConst(c, in); ok && (b == '{' || b == '}') {
 								return string(b)
@@ -1128,7 +1128,7 @@ func c1Pairing(c *Ctx, rule string) {
 		if !ok {
 			c.Notes = append(c.Notes, fmt.Sprintf("object-frame offending paths: %v (truncated=%v)", badF, trunc))
 		}
-		c.Check(ok, rule, ee.String(), "object-frame", ee.Pos(), "every entry is '{' … fields … closeOpenNamespaces … [stack] … '}' line-ending, each on every path and in this order")
+		c.Check(ok, rule, FStr(ee), "object-frame", ee.Pos(), "every entry is '{' … fields … closeOpenNamespaces … [stack] … '}' line-ending, each on every path and in this order")
 	}
 }
 
@@ -1148,7 +1148,7 @@ func c1Separators(c *Ctx, rule string) {
 	for _, in := range []string{"ObjectEncoder", "ArrayEncoder"} {
 		it, _ := c.Named(CorePath, in).Underlying().(*types.Interface)
 		for i := 0; i < it.NumMethods(); i++ {
-			want[it.Method(i).Name()] = true
+			want[FNm(it.Method(i))] = true
 		}
 	}
 	// summary: establishes the separator before any direct write
@@ -1210,25 +1210,25 @@ func c1Separators(c *Ctx, rule string) {
 		}
 		n++
 		// methods that write something (directly or via siblings) must establish first; pure delegators must delegate
-		c.Check(est(fn, 0), rule, fn.String(), "separator-first", fn.Pos(), "no byte is written to the buffer before the element separator was considered (directly, via addKey, or via a sibling method that does)")
+		c.Check(est(fn, 0), rule, FStr(fn), "separator-first", fn.Pos(), "no byte is written to the buffer before the element separator was considered (directly, via addKey, or via a sibling method that does)")
 	}
 	// ',' only from addElementSeparator
 	var commaSites []string
 	for _, fn := range coreFuncs(c) {
 		AllInstrs(fn, func(in ssa.Instruction) {
 			if constWriteHas(c, in, ',') {
-				commaSites = append(commaSites, fn.Name())
+				commaSites = append(commaSites, FNm(fn))
 			}
 			if cl, ok := in.(*ssa.Call); ok {
-				if f := CalleeFunc(cl); f != nil && (f.Name() == "AppendString" || f.Name() == "WriteString") && len(Args(cl)) == 2 && encBufRecv(c, Args(cl)[0]) {
+				if f := CalleeFunc(cl); f != nil && (FNm(f) == "AppendString" || FNm(f) == "WriteString") && len(Args(cl)) == 2 && encBufRecv(c, Args(cl)[0]) {
 					if b, ok := constBytes(Args(cl)[1]); ok && strings.Contains(string(b), ",") {
-						commaSites = append(commaSites, fn.Name())
+						commaSites = append(commaSites, FNm(fn))
 					}
 				}
 			}
 		})
 	}
-	c.Check(len(commaSites) == 1 && commaSites[0] == "addElementSeparator", rule, sep.String(), "only-comma-writer", sep.Pos(), "',' is written only by addElementSeparator (sites: %v); an unconditional comma elsewhere yields '{,' or ',,'", commaSites)
+	c.Check(len(commaSites) == 1 && commaSites[0] == "addElementSeparator", rule, FStr(sep), "only-comma-writer", sep.Pos(), "',' is written only by addElementSeparator (sites: %v); an unconditional comma elsewhere yields '{,' or ',,'", commaSites)
 	// the no-separator byte set
 	var sw *ssa.BasicBlock
 	subjPrefix := "Bytes(" + PN(sep.Params[0]) + ".buf)["
@@ -1240,7 +1240,7 @@ func c1Separators(c *Ctx, rule string) {
 		}
 	}
 	if sw == nil {
-		c.Und(rule, sep.String(), "byte-set", sep.Pos(), "cannot find the last-byte test")
+		c.Und(rule, FStr(sep), "byte-set", sep.Pos(), "cannot find the last-byte test")
 	} else {
 		isSubj := func(v ssa.Value) bool { return strings.HasPrefix(Desc(v), subjPrefix) }
 		event := func(in ssa.Instruction) string {
@@ -1275,7 +1275,7 @@ func c1Separators(c *Ctx, rule string) {
 				ok = false
 			}
 		}
-		c.Check(ok, rule, sep.String(), "no-separator-byte-set", sep.Pos(), "evaluated over all 256 last-byte values: no separator after %q (must contain %q, may only add ' '); every other byte gets ',' (plus ' ' when spaced)", string(noSep), must)
+		c.Check(ok, rule, FStr(sep), "no-separator-byte-set", sep.Pos(), "evaluated over all 256 last-byte values: no separator after %q (must contain %q, may only add ' '); every other byte gets ',' (plus ' ' when spaced)", string(noSep), must)
 		// empty buffer: no separator
 		// by path exploration with the buffer's length fixed to 0: nothing is written and no byte is looked at
 		srn := PN(sep.Params[0])
@@ -1289,7 +1289,7 @@ func c1Separators(c *Ctx, rule string) {
 			Event: func(in ssa.Instruction, st *ConcState) string {
 				switch x := in.(type) {
 				case *ssa.Call:
-					if f := CalleeFunc(x); f != nil && f.Pkg() != nil && f.Pkg().Path() == "go.uber.org/zap/buffer" && isMutatingBufMethod(f.Name()) {
+					if f := CalleeFunc(x); f != nil && f.Pkg() != nil && f.Pkg().Path() == "go.uber.org/zap/buffer" && isMutatingBufMethod(FNm(f)) {
 						return "write"
 					}
 				case *ssa.IndexAddr:
@@ -1306,7 +1306,7 @@ func c1Separators(c *Ctx, rule string) {
 				okEmpty = false
 			}
 		}
-		c.Check(okEmpty, rule, sep.String(), "empty-buffer", sep.Pos(), "an empty buffer gets no separator and no byte of it is read (paths with the length fixed to 0: %v)", eseqs)
+		c.Check(okEmpty, rule, FStr(sep), "empty-buffer", sep.Pos(), "an empty buffer gets no separator and no byte of it is read (paths with the length fixed to 0: %v)", eseqs)
 	}
 	// addKey order, explored for spaced on/off with helpers inlined: constant writes are expanded to their bytes
 	rcv := PN(addKey.Params[0])
@@ -1321,7 +1321,7 @@ func c1Separators(c *Ctx, rule string) {
 				}
 				return 0, false
 			},
-			Inline: func(h *ssa.Function) bool { return h.Name() != "addElementSeparator" && h.Name() != "safeAddString" },
+			Inline: func(h *ssa.Function) bool { return FNm(h) != "addElementSeparator" && FNm(h) != "safeAddString" },
 			Event: func(in ssa.Instruction, st *ConcState) string {
 				if alts, ok := constWrite(c, in); ok {
 					if len(alts) != 1 {
@@ -1335,7 +1335,7 @@ func c1Separators(c *Ctx, rule string) {
 				}
 				if cl, ok := in.(*ssa.Call); ok {
 					if f := CalleeFunc(cl); f != nil {
-						switch f.Name() {
+						switch FNm(f) {
 						case "addElementSeparator":
 							return "SEP"
 						case "safeAddString":
@@ -1358,7 +1358,7 @@ func c1Separators(c *Ctx, rule string) {
 		}
 		shapes = append(shapes, fmt.Sprintf("spaced=%d: %q", spaced, seqs))
 	}
-	c.Check(okSeq, rule, addKey.String(), "key-shape", addKey.Pos(), "addKey emits separator, '\"', escaped key, '\"', ':' (and ' ' exactly when spaced) on every path: %v", shapes)
+	c.Check(okSeq, rule, FStr(addKey), "key-shape", addKey.Pos(), "addKey emits separator, '\"', escaped key, '\"', ':' (and ' ' exactly when spaced) on every path: %v", shapes)
 	if n < 40 {
 		c.Bad(rule, "encoder methods", "count", token.NoPos, "only %d encoder methods checked", n)
 	}
@@ -1408,20 +1408,20 @@ func c1NilGuards(c *Ctx, rule string, jsonOnly bool) {
 					for _, st := range FieldStoresOf(g, c.Named(CorePath, "jsonEncoder")) {
 						if st.Field == "EncoderConfig" && !IsNilConst(Strip(st.Instr.Val)) && !strings.HasSuffix(Desc(st.Instr.Val), ".EncoderConfig") {
 							// a helper that stores what it is handed: what matters is what its callers hand it
-							if pv, isP := Strip(st.Instr.Val).(*ssa.Parameter); isP && len(sitesOf(g)) > 0 && !token.IsExported(g.Name()) {
+							if pv, isP := Strip(st.Instr.Val).(*ssa.Parameter); isP && len(sitesOf(g)) > 0 && !token.IsExported(FNm(g)) {
 								inherited := true
 								for _, site := range sitesOf(g) {
 									for ai, a := range Args(site) {
 										if ai < len(g.Params) && g.Params[ai] == pv && !strings.HasSuffix(Desc(a), ".EncoderConfig") {
 											inherited = false
-											attach = append(attach, site.Parent().Name())
+											attach = append(attach, FNm(site.Parent()))
 										}
 									}
 								}
 								_ = inherited
 								continue
 							}
-							attach = append(attach, g.Name())
+							attach = append(attach, FNm(g))
 						}
 					}
 				}
@@ -1626,12 +1626,12 @@ func c1Fallback(c *Ctx, rule string) {
 	}
 	for _, fn := range coreFuncs(c) {
 		rn := RecvNamed(fn)
-		if rn == nil || rn.Obj().Name() != "jsonEncoder" || !hasOptional[fn] || Eligible(fn) && len(sitesOf(fn)) > 0 && fn.Parent() == nil && allSitesIn(fn, hasOptional) {
+		if rn == nil || FNm(rn.Obj()) != "jsonEncoder" || !hasOptional[fn] || Eligible(fn) && len(sitesOf(fn)) > 0 && fn.Parent() == nil && allSitesIn(fn, hasOptional) {
 			continue
 		}
 		// Path exploration: after every user sub-encoder call, the buffer length is compared with its value from before
 		// the call (nothing written in between), and an unchanged length is followed by a built-in write.
-		id := func(v ssa.Value) string { return v.Parent().Name() + "." + v.Name() }
+		id := func(v ssa.Value) string { return FNm(v.Parent()) + "." + v.Name() }
 		resolve := func(st *ConcState, v ssa.Value) ssa.Value {
 			v = Strip(v)
 			for k := 0; k < 12; k++ {
@@ -1649,7 +1649,7 @@ func c1Fallback(c *Ctx, rule string) {
 				return false
 			}
 			f := CalleeFunc(cl)
-			return f != nil && f.Name() == "Len" && f.Pkg() != nil && f.Pkg().Path() == "go.uber.org/zap/buffer" && encBufRecv(c, Args(cl)[0])
+			return f != nil && FNm(f) == "Len" && f.Pkg() != nil && f.Pkg().Path() == "go.uber.org/zap/buffer" && encBufRecv(c, Args(cl)[0])
 		}
 		seqs, trunc := ConcPaths(fn, ConcCfg{
 			Prune: true, MaxStates: 300000,
@@ -1673,7 +1673,7 @@ func c1Fallback(c *Ctx, rule string) {
 					}
 				}
 				if f := CalleeFunc(call); f != nil {
-					if f.Pkg() != nil && f.Pkg().Path() == "go.uber.org/zap/buffer" && len(Args(call)) > 0 && encBufRecv(c, Args(call)[0]) && isMutatingBufMethod(f.Name()) {
+					if f.Pkg() != nil && f.Pkg().Path() == "go.uber.org/zap/buffer" && len(Args(call)) > 0 && encBufRecv(c, Args(call)[0]) && isMutatingBufMethod(FNm(f)) {
 						return "write"
 					}
 				}
@@ -1842,7 +1842,7 @@ func inRegion(fn, h *ssa.Function) bool {
 func c1Errors(c *Ctx, rule string) {
 	addTo := c.Method(CorePath, "Field", "AddTo")
 	if c.Anchor(rule, "zapcore.Field.AddTo", addTo != nil) {
-		name := addTo.String()
+		name := FStr(addTo)
 		// the tests that turn a non-nil error into the "<key>Error" string field
 		keyD := PN(addTo.Params[0]) + ".Key"
 		reportOf := func(iff *ssa.If) ssa.Value {
@@ -1873,11 +1873,11 @@ func c1Errors(c *Ctx, rule string) {
 					}
 				}
 				for _, in := range cands {
-					if cl, ok := in.(*ssa.Call); ok && cl.Call.IsInvoke() && cl.Call.Method.Name() == "AddString" {
+					if cl, ok := in.(*ssa.Call); ok && cl.Call.IsInvoke() && FNm(cl.Call.Method) == "AddString" {
 						k := Desc(cl.Call.Args[0])
 						ev := cl.Call.Args[1]
 						okV := false
-						if ec, ok := ev.(*ssa.Call); ok && ec.Call.IsInvoke() && ec.Call.Method.Name() == "Error" && FlowSet(x)[ec.Call.Value] || Desc(ev) == "Error("+Desc(x)+")" {
+						if ec, ok := ev.(*ssa.Call); ok && ec.Call.IsInvoke() && FNm(ec.Call.Method) == "Error" && FlowSet(x)[ec.Call.Value] || Desc(ev) == "Error("+Desc(x)+")" {
 							okV = true
 						}
 						okK := k == "("+keyD+` + "Error")`
@@ -1953,7 +1953,7 @@ func c1Errors(c *Ctx, rule string) {
 				m := it.Method(i)
 				sig := m.Type().(*types.Signature)
 				if sig.Results().Len() == 1 && sig.Results().At(0).Type().String() == "error" {
-					targets[m.Name()] = true
+					targets[FNm(m)] = true
 				}
 			}
 		}
@@ -1966,7 +1966,7 @@ func c1Errors(c *Ctx, rule string) {
 				continue
 			}
 			f := CalleeFunc(call)
-			if f == nil || !targets[f.Name()] || call.Type().String() != "error" {
+			if f == nil || !targets[FNm(f)] || call.Type().String() != "error" {
 				continue
 			}
 			if f.Pkg() == nil || !strings.HasPrefix(f.Pkg().Path(), ZapPath) {
@@ -1990,7 +1990,7 @@ func c1Errors(c *Ctx, rule string) {
 					ord++
 				}
 			}
-			c.Check(used, rule, FuncKey(fn), "result-used/"+f.Name()+"#"+itoa(ord+1), call.Pos(), "the error returned by %s is propagated or folded, not dropped", f.Name())
+			c.Check(used, rule, FuncKey(fn), "result-used/"+FNm(f)+"#"+itoa(ord+1), call.Pos(), "the error returned by %s is propagated or folded, not dropped", FNm(f))
 		}
 	})
 	if nCalls < 10 {
@@ -2016,7 +2016,7 @@ func c1Brackets(c *Ctx, rule string) {
 	funcs := coreFuncs(c)
 	for _, fn := range funcs {
 		rn := RecvNamed(fn)
-		if rn == nil || rn.Obj().Name() != "jsonEncoder" {
+		if rn == nil || FNm(rn.Obj()) != "jsonEncoder" {
 			continue
 		}
 		AllInstrs(fn, func(in ssa.Instruction) {
@@ -2050,7 +2050,7 @@ func c1Brackets(c *Ctx, rule string) {
 	}
 	for _, fn := range funcs {
 		rn := RecvNamed(fn)
-		if rn == nil || rn.Obj().Name() != "jsonEncoder" || !mayBracket[fn] {
+		if rn == nil || FNm(rn.Obj()) != "jsonEncoder" || !mayBracket[fn] {
 			continue
 		}
 		onlyClose, any := true, false
@@ -2075,13 +2075,13 @@ func c1Brackets(c *Ctx, rule string) {
 	n := 0
 	for _, fn := range funcs {
 		rn := RecvNamed(fn)
-		if rn == nil || rn.Obj().Name() != "jsonEncoder" || !mayBracket[fn] || closers[fn] || fn.Parent() != nil {
+		if rn == nil || FNm(rn.Obj()) != "jsonEncoder" || !mayBracket[fn] || closers[fn] || fn.Parent() != nil {
 			continue
 		}
 		if Eligible(fn) && !hasLoop(fn) {
 			continue // explored inline at its call sites
 		}
-		name := fn.String()
+		name := FStr(fn)
 		seqs, trunc := ConcPaths(fn, ConcCfg{
 			Prune: true, MaxStates: 300000,
 			Inline: func(h *ssa.Function) bool { return mayBracket[h] && !hasLoop(h) && !closers[h] },
@@ -2095,7 +2095,7 @@ func c1Brackets(c *Ctx, rule string) {
 					if f == nil {
 						return ""
 					}
-					if x.Call.IsInvoke() && (f.Name() == "MarshalLogObject" || f.Name() == "MarshalLogArray") {
+					if x.Call.IsInvoke() && (FNm(f) == "MarshalLogObject" || FNm(f) == "MarshalLogArray") {
 						return "marshal"
 					}
 					if f.Pkg() == nil || f.Pkg().Path() != "go.uber.org/zap/buffer" {
@@ -2105,7 +2105,7 @@ func c1Brackets(c *Ctx, rule string) {
 					if len(args) != 2 || !encBufRecv(c, args[0]) {
 						return ""
 					}
-					switch f.Name() {
+					switch FNm(f) {
 					case "AppendByte", "WriteByte":
 						if k, ok := st.Int(args[1]); ok && isBracket(byte(k)) {
 							return string(rune(k))
@@ -2198,7 +2198,7 @@ func escapedBytes(v ssa.Value, depth int) bool {
 	}
 	switch x := Strip(v).(type) {
 	case *ssa.Call:
-		if f := CalleeFunc(x); f != nil && f.Name() == "Bytes" && f.Pkg() != nil && f.Pkg().Path() == "go.uber.org/zap/buffer" {
+		if f := CalleeFunc(x); f != nil && FNm(f) == "Bytes" && f.Pkg() != nil && f.Pkg().Path() == "go.uber.org/zap/buffer" {
 			if args := Args(x); len(args) == 1 {
 				if ld, ok := args[0].(*ssa.UnOp); ok && ld.Op == token.MUL {
 					if fa, isFA := ld.X.(*ssa.FieldAddr); isFA && fieldName(fa.X.Type(), fa.Field) == "buf" {
@@ -2209,7 +2209,7 @@ func escapedBytes(v ssa.Value, depth int) bool {
 		}
 	case *ssa.Extract:
 		if cl, ok := x.Tuple.(*ssa.Call); ok && x.Index == 0 {
-			if f := CalleeFunc(cl); f != nil && f.Name() == "encodeReflected" {
+			if f := CalleeFunc(cl); f != nil && FNm(f) == "encodeReflected" {
 				return true
 			}
 		}
